@@ -186,6 +186,13 @@ fn record(seed: u64, runs: u64, target: usize, path: &str, faults: bool, palette
                 }
             }
             v
+        } else if palette && k >= 17 + 30 {
+            // formatted write in three pieces, the middle one long (255 / 256 / 300 / 1100 bytes): pieces reach the console in order
+            let l = [255usize, 256, 300, 1100][(k as usize - 47) % 4];
+            let mut v = b"\x1b[32;44m".to_vec();
+            v.extend((0..l).map(|i| b'a' + (i % 26) as u8));
+            v.extend_from_slice(b"\x1b[0m!");
+            v
         } else if palette {
             // fault family: three runs in ONE buffer handed to ONE call; the console fails or is short at a LATER run
             b"one\x1b[31mtwo\x1b[42mthree\x1b[0m four".to_vec()
@@ -201,7 +208,7 @@ fn record(seed: u64, runs: u64, target: usize, path: &str, faults: bool, palette
             &[Resp::All, Resp::Short(2), Resp::ErrO], &[Resp::All, Resp::Short(0)], &[Resp::Short(2), Resp::Short(1), Resp::All, Resp::Short(1)],
             &[Resp::ErrO], &[Resp::ErrI], &[Resp::All, Resp::All, Resp::All, Resp::ErrO],
         ];
-        let fam = if palette && k >= 17 { Some(family[((k - 17) / 3) as usize % family.len()]) } else { None };
+        let fam = if palette && k >= 17 && k < 47 { Some(family[((k - 17) / 3) as usize % family.len()]) } else { None };
         if let Some(f) = fam {
             script.extend(f.iter().cloned());
         }
@@ -224,7 +231,8 @@ fn record(seed: u64, runs: u64, target: usize, path: &str, faults: bool, palette
         }
         let log = Rc::new(RefCell::new(ConsoleLog { script, calls: vec![] }));
         let mut s = wincon::WinconStream::new(Console(log.clone()));
-        let style = if fam.is_some() { 0 } else { *r.pick(&[0usize, 1, 2, 3, 5, 8, 17, 64]) };
+        let pieces3 = palette && k >= 47;
+        let style = if fam.is_some() || pieces3 { 0 } else { *r.pick(&[0usize, 1, 2, 3, 5, 8, 17, 64]) };
         let cuts = gen::gen_partition(&mut r, input.len(), style);
         let text_ok = std::str::from_utf8(&input).is_ok();
         let mut pos = 0;
@@ -234,6 +242,9 @@ fn record(seed: u64, runs: u64, target: usize, path: &str, faults: bool, palette
             let mut op = ["write", "write_all", "write_all", "write_fmt", "vectored"][r.below(5)];
             if fam.is_some() {
                 op = ["write", "write_all", "write_fmt"][(k % 3) as usize];
+            }
+            if pieces3 {
+                op = "write_fmt3";
             }
             if op == "write_fmt" {
                 if !text_ok {
@@ -278,6 +289,12 @@ fn record(seed: u64, runs: u64, target: usize, path: &str, faults: bool, palette
                     "write" => s.write(buf),
                     "vectored" => s.write_vectored(&[io::IoSlice::new(&[]), io::IoSlice::new(buf)]),
                     "write_all" => s.write_all(buf).map(|_| buf.len()),
+                    "write_fmt3" => {
+                        let t = std::str::from_utf8(buf).unwrap();
+                        let (a, rest) = t.split_at(8);
+                        let (b, c) = rest.split_at(rest.len() - 5);
+                        write!(s, "{}{}{}", a, b, c).map(|_| buf.len())
+                    }
                     _ => write!(s, "{}", std::str::from_utf8(buf).unwrap()).map(|_| buf.len()),
                 }
             }));
@@ -287,7 +304,7 @@ fn record(seed: u64, runs: u64, target: usize, path: &str, faults: bool, palette
                 Ok(Err(e)) => json!([kind_of(e), 0]),
                 Err(_) => json!(["panic", 0]),
             };
-            writeln!(w, "{}", json!({"op":if op == "vectored" {"write"} else {op},"new":if first {1} else {0},"buf":buf,"console":console,"ret":ret})).unwrap();
+            writeln!(w, "{}", json!({"op":if op == "vectored" {"write"} else if op == "write_fmt3" {"write_fmt"} else {op},"new":if first {1} else {0},"buf":buf,"console":console,"ret":ret})).unwrap();
             events += 1;
             first = false;
             match &res {
